@@ -16,6 +16,7 @@ CONSTANTS
   NilForGone = TRUE
   Validate = TRUE
   BumpOnRemove = TRUE
+  BumpOnEntry = TRUE
 SPECIFICATION TSpec
 INVARIANT Done
 CHECK_DEADLOCK FALSE
